@@ -202,7 +202,7 @@ def pytest_route(chk):
                        VERIF_OUT=out)
             p = subprocess.run([PY, "-m", "pytest", "-q", "-p", "no:cacheprovider", 
                                 f"--jaxtyping-packages={','.join(names)},verif_spy.{c}", os.path.join(root, "test_it.py")],
-                               cwd=root, env=env, capture_output=True, text=True, timeout=600)
+                               cwd=root, env=env, capture_output=True, text=True, timeout=1800)
             got = json.load(open(out)) if os.path.exists(out) else {"error": (p.stdout + p.stderr)[-300:]}
             return cfg, got
         with ThreadPoolExecutor(max_workers=5) as ex:
